@@ -45,17 +45,22 @@ one_dist_icf(uint32_t d, int compute)
                 rp_fail("dist=%u :: symbol %u extra %u does not encode the distance (RFC: symbol %u, base %u, extra %u)", d,
                         code, extra, rfc_dist_sym(d), rfc_dist_base[rfc_dist_sym(d)], rfc_dist_extra_val(d));
 }
+static uint32_t rp_dcode[30], rp_dlen[30]; /* Huffman code of every distance symbol (the table under test may store only some) */
 static void
 mk_tables(struct isal_hufftables *t, uint64_t seed)
 {
         rp_s = seed | 1;
-        for (int s = 0; s < 30 - IGZIP_DECODE_OFFSET; s++) {
-                t->dcodes_sizes[s] = 1 + rp_rand() % 15;
-                t->dcodes[s] = rp_rand() & ((1u << t->dcodes_sizes[s]) - 1);
+        for (int s = 0; s < 30; s++) {
+                rp_dlen[s] = 1 + rp_rand() % 15;
+                rp_dcode[s] = rp_rand() & ((1u << rp_dlen[s]) - 1);
+                if (s >= IGZIP_DECODE_OFFSET) {
+                        t->dcodes_sizes[s - IGZIP_DECODE_OFFSET] = rp_dlen[s];
+                        t->dcodes[s - IGZIP_DECODE_OFFSET] = rp_dcode[s];
+                }
         }
         for (uint32_t d = 1; d <= IGZIP_DIST_TABLE_SIZE; d++) {
-                uint32_t s = rfc_dist_sym(d), n = t->dcodes_sizes[s];
-                t->dist_table[d - 1] = ((t->dcodes[s] | (rfc_dist_extra_val(d) << n)) << 5) | (n + rfc_dist_extra[s]);
+                uint32_t s = rfc_dist_sym(d), n = rp_dlen[s];
+                t->dist_table[d - 1] = ((rp_dcode[s] | (rfc_dist_extra_val(d) << n)) << 5) | (n + rfc_dist_extra[s]);
         }
 }
 static void
@@ -68,8 +73,8 @@ one_dist_code(uint32_t d, int compute, uint64_t seed)
                 compute_dist_code(&t, d, &code, &len);
         else
                 get_dist_code(&t, d, &code, &len);
-        uint32_t s = rfc_dist_sym(d), n = t.dcodes_sizes[s];
-        uint64_t wc = t.dcodes[s] | ((uint64_t) rfc_dist_extra_val(d) << n), wl = n + rfc_dist_extra[s];
+        uint32_t s = rfc_dist_sym(d), n = rp_dlen[s];
+        uint64_t wc = rp_dcode[s] | ((uint64_t) rfc_dist_extra_val(d) << n), wl = n + rfc_dist_extra[s];
         if (code != wc || len != wl)
                 rp_fail("dist=%u :: code %llu/%llu bits, expected Huffman code of symbol %u followed by %u extra bits = %llu/%llu bits",
                         d, (unsigned long long) code, (unsigned long long) len, s, rfc_dist_extra[s], (unsigned long long) wc,
